@@ -206,7 +206,10 @@ def _compare(real, exp, obs):
 
 def model_check(v, thorough):
     from concurrent.futures import ThreadPoolExecutor
-    cfgs = ['Lease.cfg', 'Lease_q2.cfg'] + (['Lease_wide.cfg'] if thorough else [])
+    cfgs = ['Lease.cfg', 'Lease_q2.cfg', 'Lease_f27.cfg'] + (['Lease_wide.cfg'] if thorough else [])
+    # Lease_f27: the application acts on an interaction whose request is still held back, AS IMPLEMENTED (open finding F27 of C08):
+    # NothingOvertakesItsRequest must be REFUTED - the day it holds the finding is obsolete (and the model stale)
+    expect = {'Lease_f27.cfg': 'NothingOvertakesItsRequest'}
 
     def one(c):
         return c, tlc.run('Lease', c, workers=4, timeout=1500, name='lease_' + c.replace('.cfg', ''))
@@ -214,9 +217,12 @@ def model_check(v, thorough):
     with ThreadPoolExecutor(max_workers=3) as ex:
         results = list(ex.map(one, cfgs))
     for cfg, r in results:
-        if r.timed_out or not r.finished:
+        if r.timed_out or (not r.finished and not r.violated):
             raise common.Machinery('TLC did not finish on Lease/%s: %s' % (cfg, r.out[-1500:]))
-        if r.violated:
+        if cfg in expect:
+            if r.violated != expect[cfg]:
+                raise common.Machinery('control configuration %s should refute %s but TLC reported %r' % (cfg, expect[cfg], r.violated))
+        elif r.violated:
             v.add_failure('C14.design_%s' % r.violated, {'cfg': cfg}, 'TLC: %s violated in the lease model %s' % (r.violated, cfg))
         v.add('states', r.distinct)
         v.add('transitions', r.generated)
